@@ -192,6 +192,9 @@ type Cell struct {
 	ID   int
 	Name string
 	Type types.Type
+	// Alloc: the cell was created by an allocation executed during the run
+	// (as opposed to a global, or storage reached through a parameter).
+	Alloc bool
 }
 
 // Ptr points into a cell; Path selects nested fields / constant indices.
